@@ -16,7 +16,6 @@ from typing import Sequence
 from markupsafe import Markup
 
 from liquid2.utils.getitem import getitem
-from liquid2.builtin import Null
 from liquid2.builtin.expressions import _eq
 from liquid2.builtin.expressions import is_truthy
 from liquid2.exceptions import LiquidTypeError
@@ -30,18 +29,6 @@ from liquid2.undefined import is_undefined
 if TYPE_CHECKING:
     from ...environment import Environment  # noqa: TID252
 
-
-class _Null:
-    """A null without a token for use in the map filter."""
-
-    def __eq__(self, other: object) -> bool:
-        return other is None or isinstance(other, (_Null, Null))
-
-    def __str__(self) -> str:  # pragma: no cover
-        return ""
-
-
-_NULL = _Null()
 
 # Send objects with missing keys to the end when sorting a list.
 MAX_CH = chr(0x10FFFF)
@@ -136,7 +123,7 @@ def concat(sequence: Sequence[object], other: Sequence[object]) -> list[object]:
 def map_(sequence: Sequence[object], key: object) -> list[object]:
     """Return an array/list of items in _sequence_ selected by _key_."""
     try:
-        return [_getitem(itm, str(key), default=_NULL) for itm in sequence]
+        return [_getitem(itm, str(key), default=None) for itm in sequence]
     except TypeError as err:
         raise LiquidTypeError("can't map sequence", token=None) from err
 
